@@ -131,7 +131,7 @@ def enum(under, scoped=True):
     nm = "E%s_%s" % ("c" if scoped else "u", under)
     u = INTS[under]
     if nm not in _enum_decls:
-        b = "-3" if u[2] else "200"
+        b = "-3" if u[2] else ("100" if under == "char" else "200")
         if scoped:
             text = "enum class %s : %s { None = 0, A = 1, B = %s, Max = std::numeric_limits<%s>::max() };" % (nm, u[0], b, u[0])
         else:
@@ -410,7 +410,7 @@ def curated():
         A(P(n))
     for u in ["u8", "i8", "u16", "i16", "u32", "i32", "u64", "i64"]:
         A(enum(u, True))
-    A(enum("u32", False))
+    A(enum("u32", False)); A(enum("char", True))      # (plain char underlying type: encoded as an unsigned 8-bit class whatever its signedness)
     for s in ["string", "u16string", "u32string", "wstring"]:
         A(P(s))
     # sequences of integral (BIN) and non-integral (ARY) elements
@@ -470,6 +470,7 @@ def curated():
     A(table([(P("string"), 1, False), (t1r, 2, True), (P("u16"), 77, True)], "TNest_R", ("hash", 127)))   # reader-side version of TNest
     A(vec(t1)); A(opt(t2)); A(struct([Member(t1), Member(P("u8"))], "STab")); A(var(t1, P("int")))
     A(table([(handle(), 1, True), (P("int"), 2, True), (vec(handle()), 3, True)], "THnd", ("hash", 5)))
+    A(table([(struct([Member(P("u16")), Member(handle()), Member(opt(handle()))], "SHndIn"), 1, True), (P("string"), 2, True), (pair(handle(), P("u8")), 3, True)], "THndStruct", ("hash", 6)))   # handles hidden inside structure / pair entries
     A(table([(var(P("i32"), P("string")), 1, True), (res(enum("u8"), vec(P("u8"))), 2, True), (P("double"), 9, True)], "TSum", ("ns", "verif.TSum")))
     # depth-3 nestings
     A(mp(P("string"), vec(opt(s1)))); A(vec(pair(enum("u8"), var(P("string"), vec(P("i32")))))); A(opt(tup(vec(P("u8")), mp(P("u8"), P("u8")), P("string"))))
